@@ -23,7 +23,7 @@ import re
 from collections import defaultdict
 from lib.facts import CallGraph, find, walk, is_node, path_of, last_seg
 from lib.grammar import Grammar, term_of, _applied, input_vars
-from lib.emitspec import SpecEmitter, concretize, contains, free_groups, OPERAND
+from lib.emitspec import SpecEmitter, concretize, contains, free_groups, variant_name, OPERAND
 from lib.pegsim import PegSim, OK, ERR, FAIL, UNK
 
 RULE = "C08-R16"
@@ -152,12 +152,13 @@ class Tables:
                 continue
             tpl = e.template
             kids = [(p[1], p[2]) for p in walk_parts(tpl) if p[0] == "fld" and len(p) > 2 and p[2] in self.by_name and p[2] != m and self.opvariants(p[2])]
-            if ty in self.token_enums:
+            if ty in self.token_enums or (len(v) == 3 and v[2][0] in self.token_enums):
+                # the arm names the token variant itself (`LogicOp::Xor => ..`, or nested: `FormulaOperator::Logic(LogicOp::Xor) => ..`)
                 c = concretize(tpl, {}, "", self.operand)
                 if c is None or self.operand in c[0]:
-                    self.undecided.append("%s: text of %s::%s not a closed literal" % (m, v[0], v[1]))
+                    self.undecided.append("%s: text of %s not a closed literal" % (m, variant_name(v)))
                     continue
-                self.origin["%s::%s" % v].add(m)
+                self.origin[variant_name(v)].add(m)
                 out.append(c)
             else:
                 for q, child in kids[:1]:
@@ -183,7 +184,7 @@ class Tables:
             inline = {}
             for p, vs in base.seen.items():
                 real = [v for v in vs if v != ("*", "*")]
-                if real and all(v[0] in self.token_enums for v in real) and len({v[0] for v in real}) == 1:
+                if real and all(len(v) == 2 and v[0] in self.token_enums for v in real) and len({v[0] for v in real}) == 1:
                     inline[p] = real
             child = {}
             for p in walk_parts(base.template):
@@ -207,7 +208,7 @@ class Tables:
                     e = self.spec(it, pname, choose)
                     if e is None:
                         continue
-                    name = ("%s::%s" % alt) if kind == "inline" else (alt[1][0][0] if alt[1] else "?")
+                    name = variant_name(alt) if kind == "inline" else (alt[1][0][0] if alt[1] else "?")
                     # node shapes: the groups (optional parts, lists) that do not hold this slot may be present or absent - the text has to be read
                     # back in ONE of the shapes (a list the parser wants non-empty, an optional part it wants present)
                     free = free_groups(e.template, s)[:4]
@@ -308,7 +309,7 @@ def unary_sites(rep, T, G, items, enums, chain, entry, bottom, sentinel, glue):
         base = T.spec(it, pname, {})
         if base is None:
             continue
-        for v in [v for v in base.seen.get("", []) if v[0] == ty]:
+        for v in [v for v in base.seen.get("", []) if v[0] == ty and len(v) == 2]:
             var = [x for x in enums[ty]["variants"] if x["name"] == v[1]]
             if not var or len(var[0]["fields"]) != 1 or set(re.findall(r"mech_core::nodes::(\w+)", var[0]["fields"][0][1])) != {oty}:
                 continue
